@@ -286,8 +286,13 @@ def mutate(rng, raw):
     i = rng.randrange(0, len(raw)); return raw[:i] + bytes([rng.randrange(256)]) + raw[i + 1:]
 
 def conn_case(cfg, reqs, cuts, **kw):
-    """reqs: list of dict(abs=<abstract request> | None, raw=bytes); cuts: one cut list per request"""
-    return dict(kind=kw.pop('kind', 'conn'), cfg=cfg, reqs=reqs, cuts=cuts, connect_ok=kw.pop('connect_ok', True), **kw)
+    """reqs: list of dict(abs=<abstract request> | None, raw=bytes); cuts: one cut list per request;
+    segs (optional): several such segmentations of the same bytes, each run on a connection of its own"""
+    segs = kw.pop('segs', None) or [cuts]
+    return dict(kind=kw.pop('kind', 'conn'), cfg=cfg, reqs=reqs, segs=segs, connect_ok=kw.pop('connect_ok', True), **kw)
+
+def segs_of(case):
+    return case.get('segs') or [case['cuts']]
 
 def generate(rng, tier):
     logging.disable(logging.CRITICAL)
@@ -303,8 +308,7 @@ def generate(rng, tier):
             a = gen_request(rng, cfg, first=(i == 0), last=(i == k - 1))
             reqs.append(dict(abs=a, raw=render_request(a)))
         made += k
-        for _ in range(nseg):
-            cases.append(conn_case(cfg, reqs, [gen_cuts(rng, q['raw']) for q in reqs]))
+        cases.append(conn_case(cfg, reqs, None, segs=[[gen_cuts(rng, q['raw']) for q in reqs] for _ in range(nseg)]))
     # boundary stream: bodies around the default re-chunking size (128 KiB), patterned so that the Coq terms stay small
     for n in ([131072] if tier != 'thorough' else [131071, 131072, 131073, 262145]):
         cfg = dict(disable=[], auth=None, agent=agent())
@@ -390,28 +394,21 @@ def get_flags(cfg):
 
 RESPONSE = b'HTTP/1.1 200 OK\r\nContent-Length: 2\r\n\r\nok'
 
-def pieces_of(case):
-    out = []
-    for q, cuts in zip(case['reqs'], case['cuts']):
-        out.append(H.cut(q['raw'], cuts))
-    return out
+def pieces_of(case, seg=None):
+    seg = segs_of(case)[0] if seg is None else seg
+    return [H.cut(q['raw'], cuts) for q, cuts in zip(case['reqs'], seg)]
 
-def run_impl(case):
+def run_seg(case, flags, seg):
     import sim
-    logging.disable(logging.CRITICAL)
-    case['cfg'] = dict(case['cfg'], agent=agent())      # corpus cases: the Via value of the tree under test
-    flags = get_flags(case['cfg'])
     script = None if case['connect_ok'] else [sim.io_error('refused')]
     s = sim.Sim(flags=flags, connect_script=script)
     counts, per_req, outcome = [], [], 0
-    flat = []
     try:
-        for ps in pieces_of(case):
+        for ps in pieces_of(case, seg):
             before = len(s.upstreams[0].out) if s.upstreams else 0
             for p in ps:
                 if s.torn:
                     break
-                flat.append(p)
                 s.client.feed(p)
                 x = s.run()
                 counts.append(len(s.upstreams[0].out) if s.upstreams else 0)
@@ -428,10 +425,18 @@ def run_impl(case):
                 s.upstreams[0].feed(RESPONSE)
                 s.run()
         up = bytes(s.upstreams[0].out) if s.upstreams else b''
-        return dict(outcome=outcome, up=up, counts=counts, per_req=per_req, fed=flat, n_up=len(s.upstreams),
-                    agent=case['cfg']['agent'], auth_code=None if flags.auth_code is None else bytes(flags.auth_code))
+        return dict(outcome=outcome, up=up, counts=counts, per_req=per_req, n_up=len(s.upstreams))
     finally:
         s.close()
+
+def run_impl(case):
+    logging.disable(logging.CRITICAL)
+    case['cfg'] = dict(case['cfg'], agent=agent())      # corpus cases: the Via value of the tree under test
+    flags = get_flags(case['cfg'])
+    runs = [run_seg(case, flags, seg) for seg in segs_of(case)]
+    out = dict(runs[0])
+    out['runs'] = runs
+    return out
 
 
 # ------------------------------------------------------------------ h11 as the independent reader of what the origin received
@@ -492,6 +497,16 @@ def wf_prefix(case):
 
 
 def oracle(case, out):
+    for k, (seg, run) in enumerate(zip(segs_of(case), out['runs'])):
+        f = oracle_run(case, seg, run)
+        if f:
+            return f if len(out['runs']) == 1 else 'segmentation %d: %s' % (k, f)
+    ups = set(r['up'] for r in out['runs'])
+    if len(ups) > 1 and wf_prefix(case) and len(wf_prefix(case)) == len(case['reqs']) and case['connect_ok']:
+        return 'the same request bytes were forwarded differently under different segmentations'
+    return None
+
+def oracle_run(case, seg, out):
     cfg = case['cfg']
     if case['kind'] == 'te-list':
         q = case['reqs'][0]
@@ -531,7 +546,7 @@ def oracle(case, out):
                 return 'request %d: %s forwarded' % (i, hop.decode())
     # every prefix of the pieces: nothing of a request is forwarded before its last byte arrived, everything right after
     cum, k = 0, 0
-    for ps, want in zip(pieces_of(case)[:len(wf)], out['per_req']):
+    for ps, want in zip(pieces_of(case, seg)[:len(wf)], out['per_req']):
         for j, p in enumerate(ps):
             if k >= len(out['counts']):
                 break
@@ -670,14 +685,19 @@ def coq_term(case, out):
     big = case['kind'] == 'big'
     f = coq_big if big else cb
     reqs = []
-    for q, cuts in zip(case['reqs'], case['cuts']):
+    for q in case['reqs']:
         if q.get('abs') is not None and not q.get('te_list'):
-            t = '(RAbs %s %s)' % (coq_request(q['abs'], big), coq_fwd(expect(cfg, q['abs']), big))
+            reqs.append('(RAbs %s %s)' % (coq_request(q['abs'], big), coq_fwd(expect(cfg, q['abs']), big)))
         else:
-            t = '(RRaw %s)' % f(q['raw'])
-        reqs.append('(%s, %s)' % (t, coq_cuts(q['raw'], cuts)))
-    terms = ['FConn %s %s %s %d %s %s' % (coq_cfg(cfg), C.coq_bool(case['connect_ok']), C.coq_list(reqs),
-                                          out['outcome'], f(out['up']), C.coq_list(str(n) for n in out['counts']))]
+            reqs.append('(RRaw %s)' % f(q['raw']))
+    terms = []
+    groups = {}
+    for seg, run in zip(segs_of(case), out['runs']):
+        groups.setdefault(run['up'], []).append((seg, run))
+    for up, rs in groups.items():
+        runs = ['(%s, %d, %s)' % (C.coq_list(coq_cuts(q['raw'], cuts) for q, cuts in zip(case['reqs'], seg)), run['outcome'],
+                                  C.coq_list(str(n) for n in run['counts'])) for seg, run in rs]
+        terms.append('FConn %s %s %s %s %s' % (coq_cfg(cfg), C.coq_bool(case['connect_ok']), C.coq_list(reqs), C.coq_list(runs), f(up)))
     if not big and not is_tunnel(case):
         for q, w in zip(case['reqs'], out['per_req']):
             if w and (q.get('abs') is None or q.get('te_list')) and comparable(w):
@@ -700,15 +720,24 @@ def classify(case, out, failure):
     return None
 
 def model_expr(case):
-    out = run_impl(case)
-    return 'feed_obs %s %s init_state %s []' % (coq_cfg(case['cfg']), C.coq_bool(case['connect_ok']), C.coq_list(cb(p) for p in out['fed']))
-
+    seg = segs_of(case)[0]
+    datas = C.coq_list(cb(q['raw']) for q in case['reqs'])
+    cuts = C.coq_list(coq_cuts(q['raw'], c) for q, c in zip(case['reqs'], seg))
+    return 'let \'(o, counts) := run_one %s %s %s %s in (outcome_code o, upstream_bytes (outcome_state o), counts)' % (
+        coq_cfg(case['cfg']), C.coq_bool(case['connect_ok']), datas, cuts)
 
 def shrink(case, fails):
     cur = dict(case)
-    # fewer requests, then fewer cuts
+    # one segmentation, fewer requests, then fewer cuts
+    for seg in segs_of(case):
+        t = dict(cur, segs=[seg])
+        if fails(t):
+            cur = t
+            break
+    else:
+        return case
     while len(cur['reqs']) > 1:
-        t = dict(cur, reqs=cur['reqs'][:-1], cuts=cur['cuts'][:-1])
+        t = dict(cur, reqs=cur['reqs'][:-1], segs=[cur['segs'][0][:-1]])
         if fails(t):
             cur = t
         else:
@@ -716,11 +745,12 @@ def shrink(case, fails):
     improved = True
     while improved:
         improved = False
-        for ri in range(len(cur['cuts'])):
-            for i in range(len(cur['cuts'][ri])):
-                cuts = [list(c) for c in cur['cuts']]
+        seg = cur['segs'][0]
+        for ri in range(len(seg)):
+            for i in range(len(seg[ri])):
+                cuts = [list(c) for c in seg]
                 del cuts[ri][i]
-                t = dict(cur, cuts=cuts)
+                t = dict(cur, segs=[cuts])
                 if fails(t):
                     cur = t; improved = True; break
             if improved:
@@ -728,7 +758,7 @@ def shrink(case, fails):
     return cur
 
 
-# ------------------------------------------------------------------ thorough: every 2-cut of 300 short requests, on the implementation
+# ------------------------------------------------------------------ thorough: every cut into two pieces of 300 short requests, on the implementation
 def extra_checks(rng, tier):
     if tier != 'thorough':
         return {}
@@ -741,17 +771,15 @@ def extra_checks(rng, tier):
             continue
         n_req += 1
         first = dict(abs=a, raw=raw)
-        for p, q in itertools.combinations(range(1, len(raw)), 2):
-            case = conn_case(cfg, [first], [[p, q]])
-            out = run_impl(case)
-            n_runs += 1
-            f = oracle(case, out)
-            if f:
-                failures.append(dict(case=case, out=out, what=f))
-                break
+        case = conn_case(cfg, [first], None, segs=[[[p]] for p in range(1, len(raw))])
+        out = run_impl(case)
+        n_runs += len(out['runs'])
+        f = oracle(case, out)
+        if f:
+            failures.append(dict(case=shrink(case, lambda c: bool(oracle(c, run_impl(c)))), out=None, what=f))
         if len(failures) >= 3:
             break
-    return dict(failures=failures, notes=['exhaustive: all 2-cuts (3 pieces) of %d requests <= 200 bytes: %d runs on the implementation' % (n_req, n_runs)],
+    return dict(failures=failures, notes=['exhaustive: every cut into two pieces of %d requests <= 200 bytes: %d runs on the implementation' % (n_req, n_runs)],
                 exhaustive_two_cut_runs=n_runs)
 
 
